@@ -24,7 +24,50 @@ pub struct Sess {
     pub now: u64,
     /// how the clock was last moved (Some(true) = set_time, Some(false) = update_time_readonly), not yet reported
     pub moved: Option<bool>,
+    /// the configured `simulation_start_epoch_ms`: Unix time = virtual time + this
+    pub epoch_ms: u64,
+    /// entry point the NEXT `exec` uses (then back to `execute`)
+    pub via: Via,
+    /// the entry point the last `exec` really used
+    pub last_entry: &'static str,
+    /// the last eviction went through `evict_expired_direct` instead of `set_time`
+    pub evict_direct: bool,
+    /// the calls of the straight-line script the next EVAL consists of (set by the generator)
+    pub script_parts: Option<Vec<Command>>,
 }
+
+/// the public entry points of `CommandExecutor` that run a data command
+#[derive(Clone, Copy, PartialEq, Debug)]
+pub enum Via {
+    Execute,
+    /// `get_direct` / `set_direct` (plain GET / plain SET only)
+    Direct,
+    /// `execute_read` (read-only commands only)
+    Read,
+}
+
+/// how the two epoch fields of the executor are configured (`ShardConfig`/`server.rs` set the
+/// seconds, `sharded_actor.rs` sets both)
+#[derive(Clone, Copy, Debug, PartialEq)]
+pub enum EpochCfg {
+    Zero,
+    Secs(i64),
+    Ms(i64),
+    Both(i64, i64),
+}
+
+impl EpochCfg {
+    pub fn ms(&self) -> u64 {
+        match self {
+            EpochCfg::Zero => 0,
+            EpochCfg::Secs(s) => (*s as u64) * 1000,
+            EpochCfg::Ms(m) | EpochCfg::Both(_, m) => *m as u64,
+        }
+    }
+}
+
+/// sorted-set values whose member map and skip list disagree, seen by `value_text` since the last drain
+pub static ZSET_INCONSISTENT: std::sync::Mutex<Vec<String>> = std::sync::Mutex::new(Vec::new());
 
 fn bcmp(a: &[u8], b: &[u8]) -> std::cmp::Ordering {
     (a.len(), a).cmp(&(b.len(), b))
@@ -44,9 +87,27 @@ pub fn score_text(f: f64) -> String {
 
 impl Sess {
     pub fn new(now: u64) -> Sess {
+        Sess::with_epoch(now, EpochCfg::Zero)
+    }
+
+    pub fn with_epoch(now: u64, cfg: EpochCfg) -> Sess {
         let mut ex = CommandExecutor::new();
+        match cfg {
+            EpochCfg::Zero => {}
+            EpochCfg::Secs(s) => ex.set_simulation_start_epoch(s),
+            EpochCfg::Ms(m) => ex.set_simulation_start_epoch_ms(m),
+            EpochCfg::Both(s, m) => {
+                ex.set_simulation_start_epoch(s);
+                ex.set_simulation_start_epoch_ms(m);
+            }
+        }
         ex.set_time(VirtualTime::from_millis(now));
-        Sess { ex, now, moved: None }
+        Sess { ex, now, moved: None, epoch_ms: cfg.ms(), via: Via::Execute, last_entry: "execute", evict_direct: false, script_parts: None }
+    }
+
+    /// Unix time in ms as the executor sees it (what the reference model calls `now`)
+    pub fn unix(&self) -> u64 {
+        self.now + self.epoch_ms
     }
 
     /// move the virtual clock: `evict` = `set_time` (active eviction, what ShardActor does before
@@ -55,15 +116,37 @@ impl Sess {
         self.moved = if t != self.now || !evict { Some(evict) } else { None };
         self.now = t;
         if evict {
-            self.ex.set_time(VirtualTime::from_millis(t));
+            if self.evict_direct {
+                self.ex.evict_expired_direct(VirtualTime::from_millis(t));
+            } else {
+                self.ex.set_time(VirtualTime::from_millis(t));
+            }
         } else {
             self.ex.update_time_readonly(VirtualTime::from_millis(t));
         }
     }
 
     pub fn exec(&mut self, cmd: &Command) -> Option<RespValue> {
+        let via = std::mem::replace(&mut self.via, Via::Execute);
         let ex = &mut self.ex;
-        catch_unwind(AssertUnwindSafe(|| ex.execute(cmd))).ok()
+        match (via, cmd) {
+            (Via::Direct, Command::Get(k)) => {
+                self.last_entry = "get_direct";
+                catch_unwind(AssertUnwindSafe(|| ex.get_direct(k))).ok()
+            }
+            (Via::Direct, Command::Set { key, value, ex: None, px: None, exat: None, pxat: None, nx: false, xx: false, get: false, keepttl: false }) => {
+                self.last_entry = "set_direct";
+                catch_unwind(AssertUnwindSafe(|| ex.set_direct(key, value.as_bytes()))).ok()
+            }
+            (Via::Read, c) if c.is_read_only() => {
+                self.last_entry = "execute_read";
+                catch_unwind(AssertUnwindSafe(|| ex.execute_read(c))).ok()
+            }
+            _ => {
+                self.last_entry = "execute";
+                catch_unwind(AssertUnwindSafe(|| ex.execute(cmd))).ok()
+            }
+        }
     }
 
     pub fn pttl(&mut self, key: &str) -> i64 {
@@ -143,6 +226,22 @@ pub fn value_text(v: &Value) -> String {
         }
         Value::SortedSet(z) => {
             let items = z.range(0, -1);
+            // observation: the member map (ZSCORE, ZCARD), the skip list (ZRANGE, ZRANK) and its
+            // length field must describe the same set
+            let consistent = z.len() == items.len()
+                && z.skiplist_len() == items.len()
+                && z.is_sorted()
+                && items.iter().enumerate().all(|(i, (m, sc))| z.score(m) == Some(*sc) && z.rank(m) == Some(i))
+                && z.iter().count() == items.len();
+            if !consistent {
+                ZSET_INCONSISTENT.lock().unwrap().push(format!(
+                    "len()={} skiplist_len()={} is_sorted()={} range(0,-1)={:?}",
+                    z.len(),
+                    z.skiplist_len(),
+                    z.is_sorted(),
+                    items.iter().map(|(m, sc)| (hex(m.as_bytes()), score_text(*sc), z.score(m).map(score_text), z.rank(m))).collect::<Vec<_>>()
+                ));
+            }
             let mut s = format!("Z {}", items.len());
             for (m, sc) in items {
                 s.push_str(&format!(" {} {}", hex(m.as_bytes()), score_text(sc)));
@@ -515,6 +614,169 @@ pub fn enc_cmd(cmd: &Command, reply: &RespValue) -> Option<String> {
     })
 }
 
+/// op text of the commands of `Model.RedisX` (understood by the C01 / C17 driver only: the other
+/// users of `enc_cmd` keep treating these variants as not modelled)
+pub fn enc_xcmd(cmd: &Command) -> Option<String> {
+    Some(match cmd {
+        Command::SetBit(k, off, bit) => format!("X SETBIT {} {} {}", hk(k), off, bit),
+        Command::GetBit(k, off) => format!("X GETBIT {} {}", hk(k), off),
+        Command::BatchSet(kvs) => {
+            let mut s = format!("X BATCHSET {}", kvs.len());
+            for (k, v) in kvs {
+                s.push_str(&format!(" {} {}", hk(k), hv(v)));
+            }
+            s
+        }
+        Command::BatchGet(ks) => {
+            let mut s = format!("X BATCHGET {}", ks.len());
+            for k in ks {
+                s.push(' ');
+                s.push_str(&hk(k));
+            }
+            s
+        }
+        Command::Keys(p) => format!("X KEYS {}", hex(p.as_bytes())),
+        _ => return None,
+    })
+}
+
+
+// ------------------------------------------------------------------------------------------
+// straight-line scripts
+
+fn b(x: &str) -> Vec<u8> {
+    x.as_bytes().to_vec()
+}
+
+/// the argument vector of `redis.call` for a command the Lua translator (`parse_lua_command_bytes`)
+/// understands in exactly the form the RESP parser would produce it; `None` = not used inside generated
+/// scripts (the commands the translator does not know are C16's finding `C16:lua:command-unknown-to-translator`)
+pub fn lua_args(cmd: &Command) -> Option<Vec<Vec<u8>>> {
+    let k = |x: &String| x.as_bytes().to_vec();
+    let v = |x: &SDS| x.as_bytes().to_vec();
+    let n = |x: i64| x.to_string().into_bytes();
+    Some(match cmd {
+        Command::Get(a) => vec![b("GET"), k(a)],
+        Command::Set { key, value, ex: None, px: None, exat: None, pxat: None, nx: false, xx: false, get: false, keepttl: false } => {
+            vec![b("SET"), k(key), v(value)]
+        }
+        Command::Set { key, value, ex: Some(e), px: None, exat: None, pxat: None, nx: false, xx: false, get: false, keepttl: false } => {
+            vec![b("SET"), k(key), v(value), b("EX"), n(*e)]
+        }
+        Command::Set { key, value, ex: None, px: Some(e), exat: None, pxat: None, nx: false, xx: false, get: false, keepttl: false } => {
+            vec![b("SET"), k(key), v(value), b("PX"), n(*e)]
+        }
+        Command::Incr(a) => vec![b("INCR"), k(a)],
+        Command::Decr(a) => vec![b("DECR"), k(a)],
+        Command::IncrBy(a, d) => vec![b("INCRBY"), k(a), n(*d)],
+        Command::Del(ks) if !ks.is_empty() => std::iter::once(b("DEL")).chain(ks.iter().map(k)).collect(),
+        Command::Exists(ks) if !ks.is_empty() => std::iter::once(b("EXISTS")).chain(ks.iter().map(k)).collect(),
+        Command::TypeOf(a) => vec![b("TYPE"), k(a)],
+        Command::Ttl(a) => vec![b("TTL"), k(a)],
+        Command::Expire { key, seconds, nx: false, xx: false, gt: false, lt: false } => vec![b("EXPIRE"), k(key), n(*seconds)],
+        Command::LPush(a, vs) if !vs.is_empty() => [b("LPUSH"), k(a)].into_iter().chain(vs.iter().map(v)).collect(),
+        Command::RPush(a, vs) if !vs.is_empty() => [b("RPUSH"), k(a)].into_iter().chain(vs.iter().map(v)).collect(),
+        Command::LPop(a) => vec![b("LPOP"), k(a)],
+        Command::RPop(a) => vec![b("RPOP"), k(a)],
+        Command::LLen(a) => vec![b("LLEN"), k(a)],
+        Command::LRange(a, i, j) => vec![b("LRANGE"), k(a), n(*i as i64), n(*j as i64)],
+        Command::RPopLPush(a, d) => vec![b("RPOPLPUSH"), k(a), k(d)],
+        Command::SAdd(a, ms) if !ms.is_empty() => [b("SADD"), k(a)].into_iter().chain(ms.iter().map(v)).collect(),
+        Command::SRem(a, ms) if !ms.is_empty() => [b("SREM"), k(a)].into_iter().chain(ms.iter().map(v)).collect(),
+        Command::SIsMember(a, m) => vec![b("SISMEMBER"), k(a), v(m)],
+        Command::HSet(a, fvs) if !fvs.is_empty() => [b("HSET"), k(a)].into_iter().chain(fvs.iter().flat_map(|(f, x)| [v(f), v(x)])).collect(),
+        Command::HGet(a, f) => vec![b("HGET"), k(a), v(f)],
+        Command::HDel(a, fs) if !fs.is_empty() => [b("HDEL"), k(a)].into_iter().chain(fs.iter().map(v)).collect(),
+        Command::HIncrBy(a, f, d) => vec![b("HINCRBY"), k(a), v(f), n(*d)],
+        Command::ZAdd { key, pairs, nx: false, xx: false, gt: false, lt: false, ch: false } if !pairs.is_empty() && pairs.iter().all(|(sc, _)| sc.is_finite()) => {
+            [b("ZADD"), k(key)].into_iter().chain(pairs.iter().flat_map(|(sc, m)| [n(*sc as i64), v(m)])).collect()
+        }
+        Command::ZRem(a, ms) if !ms.is_empty() => [b("ZREM"), k(a)].into_iter().chain(ms.iter().map(v)).collect(),
+        Command::ZCard(a) => vec![b("ZCARD"), k(a)],
+        Command::ZScore(a, m) => vec![b("ZSCORE"), k(a), v(m)],
+        _ => return None,
+    })
+}
+
+/// `EVAL` of the straight-line script over `parts`: every argument travels through ARGV (binary
+/// safe), the script text is `redis.call(ARGV[1],ARGV[2]); …; return 'done'`
+pub fn script_of(parts: &[Command]) -> Option<Command> {
+    let mut text = String::new();
+    let mut args: Vec<SDS> = Vec::new();
+    for p in parts {
+        let a = lua_args(p)?;
+        // a non-integral score would need float formatting; members / values are bytes
+        let idx: Vec<String> = (0..a.len()).map(|i| format!("ARGV[{}]", args.len() + i + 1)).collect();
+        text.push_str(&format!("redis.call({}); ", idx.join(",")));
+        args.extend(a.into_iter().map(SDS::new));
+    }
+    text.push_str("return 'done'");
+    Some(Command::Eval { script: text, keys: vec![], args })
+}
+
+/// op text of a straight-line script (`None` if a part has no op text)
+pub fn enc_script(parts: &[Command]) -> Option<String> {
+    let mut s = format!("SCRIPT {}", parts.len());
+    for p in parts {
+        s.push(' ');
+        s.push_str(&enc_cmd(p, &RespValue::BulkString(None))?);
+        s.push_str(" &&");
+    }
+    Some(s)
+}
+
+// ------------------------------------------------------------------------------------------
+// entry points of `CommandExecutor` (derived from the source by build.rs) and how they are driven
+
+include!(concat!(env!("OUT_DIR"), "/command_api_gen.rs"));
+
+pub fn executor_fn_coverage(name: &str) -> Option<&'static str> {
+    Some(match name {
+        "new" => "driven: every session",
+        "with_shared_script_cache" | "set_shared_script_cache" => "NOT part of C01/C17: script cache plumbing (C16 drives EVAL/EVALSHA through both caches)",
+        "set_simulation_start_epoch" | "set_simulation_start_epoch_ms" => "driven: generated configuration of a session (0, 1 s, a present-day epoch, a far-future epoch; seconds only, ms only, both with an ms value that is not a multiple of 1000)",
+        "set_time" => "driven: clock moves with active eviction",
+        "update_time_readonly" => "driven: clock moves without eviction (lazy expiry)",
+        "get_current_time" => "accessor",
+        "get_direct" => "driven: plain GET through the fast path (model: GET)",
+        "set_direct" => "driven: plain SET through the fast path (model: SET without options)",
+        "evict_expired_direct" => "driven: clock moves with active eviction through the TTL-manager entry point",
+        "get_data" => "accessor: used by the dump",
+        "execute_read" => "driven: read-only commands (model: the command itself)",
+        "execute_readonly" => "driven: EXISTS in every dump; C17 sweep calls it for every command classified read-only (snapshot must not move)",
+        "execute" => "driven: every command",
+        _ => return None,
+    })
+}
+
+pub fn report_executor_api(out: &mut Out, prop: &str) {
+    let mut table: std::collections::BTreeMap<String, String> = std::collections::BTreeMap::new();
+    for f in EXECUTOR_PUB_FNS {
+        match executor_fn_coverage(f) {
+            Some(c) => {
+                if c.starts_with("driven") && matches!(*f, "get_direct" | "set_direct" | "execute_read" | "evict_expired_direct") {
+                    let n = out.dist.get(&format!("entry:{}", f)).copied().unwrap_or(0);
+                    if n == 0 {
+                        eprintln!("entry point {} is listed as driven but this run never called it", f);
+                        std::process::exit(3);
+                    }
+                    table.insert(f.to_string(), format!("{} [{} calls]", c, n));
+                } else {
+                    table.insert(f.to_string(), c.to_string());
+                }
+            }
+            None => {
+                table.insert(f.to_string(), "UNACCOUNTED".into());
+                out.violation(
+                    &format!("{}:coverage:executor-fn-not-driven:{}", prop, f),
+                    &format!("`pub fn {}` of `impl CommandExecutor` (src/redis/executor/mod.rs) is neither driven nor listed with a reason (harness/src/redisx.rs executor_fn_coverage)", f),
+                    json!({"name": f}),
+                );
+            }
+        }
+    }
+    out.extra.insert("executor_api_coverage(derived from src/redis/executor/mod.rs by build.rs)".into(), json!(table));
+}
 
 // ------------------------------------------------------------------------------------------
 // coverage table of the `Command` enum
@@ -549,12 +811,12 @@ pub fn variant_info(c: &Command) -> (&'static str, Cover) {
         Command::MGet(_) => ("MGet", Modelled),
         Command::MSet(_) => ("MSet", Modelled),
         Command::MSetNx(_) => ("MSetNx", Modelled),
-        Command::BatchSet(_) => ("BatchSet", OracleOnly("internal shard-batch form of MSET, not reachable through RESP")),
-        Command::BatchGet(_) => ("BatchGet", OracleOnly("internal shard-batch form of MGET, not reachable through RESP")),
+        Command::BatchSet(_) => ("BatchSet", Modelled), // Model.RedisX
+        Command::BatchGet(_) => ("BatchGet", Modelled), // Model.RedisX
         Command::GetRange(_, _, _) => ("GetRange", Modelled),
         Command::SetRange(_, _, _) => ("SetRange", Modelled),
-        Command::SetBit(_, _, _) => ("SetBit", OracleOnly("bitmaps are outside the model")),
-        Command::GetBit(_, _) => ("GetBit", OracleOnly("bitmaps are outside the model")),
+        Command::SetBit(_, _, _) => ("SetBit", Modelled), // Model.RedisX
+        Command::GetBit(_, _) => ("GetBit", Modelled), // Model.RedisX
         Command::GetEx { .. } => ("GetEx", Modelled),
         Command::GetDel(_) => ("GetDel", Modelled),
         Command::Incr(_) => ("Incr", Modelled),
@@ -565,7 +827,7 @@ pub fn variant_info(c: &Command) -> (&'static str, Cover) {
         Command::Del(_) => ("Del", Modelled),
         Command::Exists(_) => ("Exists", Modelled),
         Command::TypeOf(_) => ("TypeOf", Modelled),
-        Command::Keys(_) => ("Keys", Modelled), // pattern `*`; other globs are oracle-only
+        Command::Keys(_) => ("Keys", Modelled), // `*` in Model.Redis, glob patterns in Model.RedisX
         Command::FlushDb => ("FlushDb", Modelled),
         Command::FlushAll => ("FlushAll", Modelled),
         Command::Expire { .. } => ("Expire", Modelled),
@@ -623,8 +885,10 @@ pub fn variant_info(c: &Command) -> (&'static str, Cover) {
         Command::Discard => ("Discard", OracleOnly(TXN)),
         Command::Watch(_) => ("Watch", OracleOnly(TXN)),
         Command::Unwatch => ("Unwatch", OracleOnly(TXN)),
-        Command::Eval { .. } => ("Eval", NotExecuted("Lua scripts: Redis itself does not roll back a script that fails after a write, so error⇒no-change is not the specification; scripting is covered by C16/C02")),
-        Command::EvalSha { .. } => ("EvalSha", NotExecuted("as Eval")),
+        // straight-line scripts (a sequence of redis.call on modelled commands + return 'done') are in
+        // the model (`Redis.stepScript`); anything else an EVAL can do is C16 / C02
+        Command::Eval { .. } => ("Eval", Modelled),
+        Command::EvalSha { .. } => ("EvalSha", OracleOnly("script cache lookup, then as EVAL (C16 compares EVALSHA with EVAL)")),
         Command::ScriptLoad(_) => ("ScriptLoad", OracleOnly(SCRIPT)),
         Command::ScriptExists(_) => ("ScriptExists", OracleOnly(SCRIPT)),
         Command::ScriptFlush => ("ScriptFlush", OracleOnly(SCRIPT)),
@@ -679,7 +943,19 @@ pub fn key(rng: &mut Rng) -> String {
 }
 
 pub fn payload(rng: &mut Rng) -> SDS {
-    let b: Vec<u8> = match rng.below(22) {
+    let x = rng.below(200);
+    payload_small(rng, x)
+}
+
+fn payload_small(rng: &mut Rng, x: u64) -> SDS {
+    let b: Vec<u8> = match x {
+        // input alphabet: values at and around the SDS inline limit, long values
+        190 | 191 => (0..23).map(|i| b'a' + (i % 26) as u8).collect(),
+        192 => (0..24).map(|i| b'a' + (i % 26) as u8).collect(),
+        193 => (0..22).map(|i| (i * 11 + 128) as u8).collect(),
+        194 => (0..100).map(|i| (i * 7) as u8).collect(),
+        195 => (0..4096).map(|i| (i % 251) as u8).collect(),
+        x if x >= 22 => return payload_small(rng, x % 22),
         0 => vec![],
         1 => vec![0, 255, 10, 13],
         2 => b"v1".to_vec(),
@@ -750,7 +1026,7 @@ fn exp_flags(rng: &mut Rng) -> (bool, bool, bool, bool) {
 
 pub fn gen_string_cmd(rng: &mut Rng, now: u64) -> Command {
     let k = key(rng);
-    match rng.below(20) {
+    match rng.below(24) {
         0 | 1 => Command::Get(k),
         2..=5 => {
             let mut c = Command::set(k, payload(rng));
@@ -797,7 +1073,15 @@ pub fn gen_string_cmd(rng: &mut Rng, now: u64) -> Command {
             }
             Command::GetEx { key: k, ex, px, exat, pxat, persist }
         }
-        _ => Command::GetDel(k),
+        19 => Command::GetDel(k),
+        20 => {
+            // never an offset whose byte index lies in 64..2^29: the executor would really allocate
+            let off = *rng.pick(&[0u64, 1, 7, 8, 9, 15, 16, 100, 175, 176, 183, 184, 191, 192, 4294967296, 4294967297, u64::MAX]);
+            Command::SetBit(k, off, rng.below(2) as u8)
+        }
+        21 => Command::GetBit(k, *rng.pick(&[0u64, 1, 7, 8, 9, 15, 16, 100, 183, 184, 191, 192, 100000, 4294967295, 4294967296, u64::MAX])),
+        22 => Command::BatchSet((0..rng.range(1, 3)).map(|_| (key(rng), payload(rng))).collect()),
+        _ => Command::BatchGet((0..rng.range(1, 4)).map(|_| key(rng)).collect()),
     }
 }
 
@@ -812,13 +1096,28 @@ pub fn gen_counter_cmd(rng: &mut Rng) -> Command {
     }
 }
 
+/// a glob pattern over the key alphabet (`a b c kk é`): fixed shapes and random strings of pattern
+/// bytes (valid UTF-8: the pattern is a `String` in `Command::Keys`)
+pub fn glob_pattern(rng: &mut Rng) -> String {
+    const FIXED: [&str; 30] = [
+        "a", "?", "??", "???", "a*", "*a", "*k", "k*", "k?", "?k", "[abc]", "[a-c]", "[c-a]", "[^a]", "[^a-b]*", "[ab", "[", "[]", "[^]", "\\a",
+        "\\*", "a\\", "*\\", "[\\a]", "[a\\-c]", "é", "*é", "?é", "[é]", "**",
+    ];
+    if rng.chance(1, 2) {
+        return rng.pick(&FIXED).to_string();
+    }
+    const PIECES: [&str; 14] = ["a", "b", "c", "k", "é", "*", "?", "[", "]", "^", "-", "\\", "x", "kk"];
+    (0..rng.range(1, 5)).map(|_| *rng.pick(&PIECES)).collect()
+}
+
 pub fn gen_key_cmd(rng: &mut Rng) -> Command {
     let k = key(rng);
     match rng.below(24) {
         0..=3 => Command::Del((0..rng.range(1, 3)).map(|_| key(rng)).collect()),
         4..=6 => Command::Exists((0..rng.range(1, 3)).map(|_| key(rng)).collect()),
         7..=9 => Command::TypeOf(k),
-        10 | 11 => Command::Keys("*".into()),
+        10 => Command::Keys("*".into()),
+        11 => Command::Keys(glob_pattern(rng)),
         12 | 13 => Command::DbSize,
         14 => {
             if rng.chance(1, 3) {
@@ -1069,22 +1368,34 @@ pub struct StepOut {
 pub fn do_step(out: &mut Out, s: &mut Sess, cmd: &Command, prop: &str, seq: &[String]) -> StepOut {
     if let Some(evict) = s.moved.take() {
         out.op(
-            format!("CLOCK {} {}", s.now, if evict { "set_time" } else { "update_time_readonly" }),
+            format!("CLOCK {} {}", s.now, if evict { if s.evict_direct { "evict_expired_direct" } else { "set_time" } } else { "update_time_readonly" }),
             "clock".to_string(),
         );
     }
+    ZSET_INCONSISTENT.lock().unwrap().clear();
     let before = s.dump();
-    let now = s.now;
+    let now = s.unix();
+    let parts = if matches!(cmd, Command::Eval { .. }) { s.script_parts.take() } else { None };
     let r = s.exec(cmd);
     let after = s.dump();
+    out.count(&format!("entry:{}", s.last_entry));
+    for what in ZSET_INCONSISTENT.lock().unwrap().drain(..) {
+        out.violation(
+            &format!("{}:zset-members-and-skiplist-disagree", prop),
+            &format!("a sorted set's member map, skip list and length field do not describe the same set after {:?}: {}", cmd.name(), what),
+            json!({"sequence": seq, "command": format!("{:?}", cmd), "observed": what}),
+        );
+    }
     if after.len() > 200_000 {
         eprintln!("harness guard: keyspace dump of {} bytes after {:?} — generator must not build such states", after.len(), cmd.name());
         std::process::exit(3);
     }
     let ro = cmd.is_read_only();
-    let (reply, is_err, op) = match &r {
-        None => ("crash".to_string(), false, enc_cmd(cmd, &RespValue::BulkString(None))),
-        Some(rv) => (reply_text(rv, reply_order(cmd)), is_error(rv), enc_cmd(cmd, rv)),
+    let (reply, is_err, op) = match (&r, &parts) {
+        (None, None) => ("crash".to_string(), false, enc_cmd(cmd, &RespValue::BulkString(None)).or_else(|| enc_xcmd(cmd))),
+        (None, Some(p)) => ("crash".to_string(), false, enc_script(p)),
+        (Some(rv), None) => (reply_text(rv, reply_order(cmd)), is_error(rv), enc_cmd(cmd, rv).or_else(|| enc_xcmd(cmd))),
+        (Some(rv), Some(p)) => (reply_text(rv, Order::AsIs), is_error(rv), enc_script(p)),
     };
     let name = cmd.name();
     out.count(&format!("cmd:{}", name));
@@ -1098,6 +1409,21 @@ pub fn do_step(out: &mut Out, s: &mut Sess, cmd: &Command, prop: &str, seq: &[St
     if modelled && variant_info(cmd).1 != Cover::Modelled {
         eprintln!("coverage table out of date: {:?} has a model op line but is not classified Modelled", variant_info(cmd).0);
         std::process::exit(3);
+    }
+    // a known finding is identified by its CAUSE: for an input of a finding's class the model of the
+    // code as it is (`Model.ExecutorCode`, or the specification on the lossy form of a binary name)
+    // answers first and must predict this very reply and keyspace; then the model is put back to the
+    // keyspace before the command and the specification is asked as for every other command
+    if let (Some(rv), Some(_)) = (&r, &op) {
+        if let Some((cause_op, sig, cro)) = cause_variant(cmd, ro) {
+            let _ = rv;
+            out.op(format!("{} {} ;; {}", now, cause_op, after), format!("{} | {} | ro={}", reply, after, cro as u8));
+            let line = out.n_ops();
+            let e = out.extra.entry("must_agree".to_string()).or_insert_with(|| json!([]));
+            e.as_array_mut().unwrap().push(json!([line, sig]));
+            out.op(format!("{} ADOPT ;; {}", now, before), "adopt".to_string());
+            out.count(&format!("cause-line:{}", sig));
+        }
     }
     let opline = match &op {
         Some(o) => format!("{} {} ;; {}", now, o, after),
@@ -1119,8 +1445,21 @@ pub fn do_step(out: &mut Out, s: &mut Sess, cmd: &Command, prop: &str, seq: &[St
     }
     if before != after && (is_err || ro) {
         let kind = if is_err { "error-mutates" } else { "readonly-mutates" };
+        // a straight-line script that fails after an earlier call has written: Redis' own semantics
+        // (no rollback), recorded as a known finding of the property AS STATED — identified by cause:
+        // the model of exactly that semantics must predict this very reply and post-state
+        let script_cause = is_err && parts.is_some() && op.is_some();
+        if script_cause {
+            let line = out.n_ops();
+            let e = out.extra.entry("must_agree".to_string()).or_insert_with(|| json!([]));
+            e.as_array_mut().unwrap().push(json!([line, "C17:error-mutates:EVAL:script-partial-effects"]));
+        }
         out.violation(
-            &format!("C17:{}:{}{}", kind, name, if is_err { format!(":{}", reply.trim_start_matches('-')) } else { String::new() }),
+            &if script_cause {
+                "C17:error-mutates:EVAL:script-partial-effects".to_string()
+            } else {
+                format!("C17:{}:{}{}", kind, name, if is_err { format!(":{}", reply.trim_start_matches('-')) } else { String::new() })
+            },
             &format!(
                 "{} replied {} {} but the visible keyspace changed: before [{}] after [{}]",
                 name,
@@ -1141,24 +1480,142 @@ pub fn reset(out: &mut Out, now: u64) -> Sess {
     Sess::new(now)
 }
 
+pub fn reset_with_epoch(out: &mut Out, now: u64, cfg: EpochCfg) -> Sess {
+    out.op("RESET".to_string(), "reset".to_string());
+    Sess::with_epoch(now, cfg)
+}
+
+/// generated configuration: mostly the default, else legal extremes and realistic values
+pub fn gen_epoch(rng: &mut Rng) -> EpochCfg {
+    match rng.below(16) {
+        0 => EpochCfg::Secs(1),
+        1 => EpochCfg::Secs(1_790_000_000),             // a present-day start
+        2 => EpochCfg::Secs(253_402_300_799),           // 9999-12-31
+        3 => EpochCfg::Ms(1),
+        4 => EpochCfg::Ms(1_790_000_000_123),           // ms not a multiple of 1000
+        5 => EpochCfg::Both(1_790_000_000, 1_790_000_000_999),
+        6 => EpochCfg::Both(1_790_000_000, 1_790_000_000_000),
+        _ => EpochCfg::Zero,
+    }
+}
+
+/// set member / hash field / sorted-set member that is not valid UTF-8: the containers store it in
+/// lossy form (known findings `C01:*-not-binary-safe`, reported on the single commands); scripts
+/// stay clear of that cause
+pub fn has_binary_name(cmd: &Command) -> bool {
+    let bad = |x: &SDS| std::str::from_utf8(x.as_bytes()).is_err();
+    match cmd {
+        Command::SAdd(_, ms) | Command::SRem(_, ms) | Command::ZRem(_, ms) | Command::HDel(_, ms) => ms.iter().any(bad),
+        Command::SIsMember(_, m) | Command::HGet(_, m) | Command::HExists(_, m) | Command::ZScore(_, m) | Command::ZRank(_, m) | Command::HIncrBy(_, m, _) => bad(m),
+        Command::HSet(_, fvs) => fvs.iter().any(|(f, _)| bad(f)),
+        Command::ZAdd { pairs, .. } => pairs.iter().any(|(_, m)| bad(m)),
+        _ => false,
+    }
+}
+
+fn lossy(x: &SDS) -> SDS {
+    SDS::new(String::from_utf8_lossy(x.as_bytes()).into_owned().into_bytes())
+}
+
+/// for an input of the class of a recorded finding: the op text under which the model of that
+/// finding's cause answers, the finding's signature, and the read-only flag that line prints
+pub fn cause_variant(cmd: &Command, ro: bool) -> Option<(String, &'static str, bool)> {
+    let dummy = RespValue::BulkString(None);
+    if has_binary_name(cmd) {
+        // cause: the container stores `String::from_utf8_lossy(name)` — the specification on the
+        // lossy names is what the code does
+        let l = |v: &Vec<SDS>| v.iter().map(lossy).collect::<Vec<_>>();
+        let (lc, sig) = match cmd {
+            Command::SAdd(k, ms) => (Command::SAdd(k.clone(), l(ms)), "C01:set-member-not-binary-safe"),
+            Command::SRem(k, ms) => (Command::SRem(k.clone(), l(ms)), "C01:set-member-not-binary-safe"),
+            Command::SIsMember(k, m) => (Command::SIsMember(k.clone(), lossy(m)), "C01:set-member-not-binary-safe"),
+            Command::HSet(k, fvs) => (Command::HSet(k.clone(), fvs.iter().map(|(f, v)| (lossy(f), v.clone())).collect()), "C01:hash-field-not-binary-safe"),
+            Command::HDel(k, fs) => (Command::HDel(k.clone(), l(fs)), "C01:hash-field-not-binary-safe"),
+            Command::HGet(k, f) => (Command::HGet(k.clone(), lossy(f)), "C01:hash-field-not-binary-safe"),
+            Command::HExists(k, f) => (Command::HExists(k.clone(), lossy(f)), "C01:hash-field-not-binary-safe"),
+            Command::HIncrBy(k, f, d) => (Command::HIncrBy(k.clone(), lossy(f), *d), "C01:hash-field-not-binary-safe"),
+            Command::ZAdd { key, pairs, nx, xx, gt, lt, ch } => (
+                Command::ZAdd { key: key.clone(), pairs: pairs.iter().map(|(s, m)| (*s, lossy(m))).collect(), nx: *nx, xx: *xx, gt: *gt, lt: *lt, ch: *ch },
+                "C01:zset-member-not-binary-safe",
+            ),
+            Command::ZRem(k, ms) => (Command::ZRem(k.clone(), l(ms)), "C01:zset-member-not-binary-safe"),
+            Command::ZScore(k, m) => (Command::ZScore(k.clone(), lossy(m)), "C01:zset-member-not-binary-safe"),
+            Command::ZRank(k, m) => (Command::ZRank(k.clone(), lossy(m)), "C01:zset-member-not-binary-safe"),
+            _ => return None,
+        };
+        return enc_cmd(&lc, &dummy).map(|o| (o, sig, ro));
+    }
+    match cmd {
+        Command::GetRange(k, a, b) if *a < 0 && *b < 0 => Some((format!("CODE GETRANGE {} {} {}", hk(k), a, b), "C01:getrange-negative-inverted", false)),
+        Command::GetSet(k, v) => Some((format!("CODE GETSET {} {}", hk(k), hv(v)), "C01:getset-keeps-deadline", false)),
+        _ => None,
+    }
+}
+
+/// a straight-line script of 1..=4 calls (biased towards "a write, then a call that can fail")
+pub fn gen_script(rng: &mut Rng, now: u64, gen: &dyn Fn(&mut Rng, u64) -> Command) -> Option<Vec<Command>> {
+    let n = rng.range(1, 4) as usize;
+    let mut parts = Vec::new();
+    let mut tries = 0;
+    while parts.len() < n && tries < 200 {
+        tries += 1;
+        let c = gen(rng, now);
+        if lua_args(&c).is_some() && enc_cmd(&c, &RespValue::BulkString(None)).is_some() && !has_binary_name(&c) {
+            parts.push(c);
+        }
+    }
+    if parts.is_empty() {
+        None
+    } else {
+        Some(parts)
+    }
+}
+
 /// one scripted step of a corpus sequence: advance the clock by `dt` (`evict` = set_time) and run
 pub struct Scripted {
     pub dt: u64,
     pub evict: bool,
     pub cmd: Command,
+    /// for an EVAL of a straight-line script: its calls
+    pub parts: Option<Vec<Command>>,
 }
 
 pub fn sc(dt: u64, evict: bool, cmd: Command) -> Scripted {
-    Scripted { dt, evict, cmd }
+    Scripted { dt, evict, cmd, parts: None }
+}
+
+/// EVAL of the straight-line script over `parts`
+pub fn sc_script(dt: u64, evict: bool, parts: Vec<Command>) -> Scripted {
+    let cmd = script_of(&parts).expect("scripted EVAL: every call must be known to the Lua translator");
+    Scripted { dt, evict, cmd, parts: Some(parts) }
 }
 
 pub fn run_scripted(out: &mut Out, prop: &str, name: &str, steps: Vec<Scripted>) {
-    let mut s = reset(out, BASE_MS);
+    run_scripted_cfg(out, prop, name, EpochCfg::Zero, steps)
+}
+
+/// the configurations `gen_epoch` draws from
+pub const EPOCH_CONFIGS: [EpochCfg; 7] = [
+    EpochCfg::Zero,
+    EpochCfg::Secs(1),
+    EpochCfg::Secs(1_790_000_000),
+    EpochCfg::Ms(1),
+    EpochCfg::Ms(1_790_000_000_123),
+    EpochCfg::Both(1_790_000_000, 1_790_000_000_999),
+    EpochCfg::Both(1_790_000_000, 1_790_000_000_000),
+];
+
+pub fn run_scripted_cfg(out: &mut Out, prop: &str, name: &str, cfg: EpochCfg, steps: Vec<Scripted>) {
+    let mut s = reset_with_epoch(out, BASE_MS, cfg);
     let mut seq: Vec<String> = Vec::new();
+    if cfg != EpochCfg::Zero {
+        seq.push(format!("config: {:?} (Unix time = virtual time + {} ms)", cfg, cfg.ms()));
+    }
     for st in steps {
         let t = s.now + st.dt;
         s.set_now(t, st.evict);
         seq.push(format!("t={}{} {:?}", t, if st.evict { "" } else { " (clock only)" }, st.cmd));
+        s.script_parts = st.parts.clone();
         do_step(out, &mut s, &st.cmd, prop, &seq);
     }
     out.count(&format!("corpus:{}", name));
@@ -1166,34 +1623,73 @@ pub fn run_scripted(out: &mut Out, prop: &str, name: &str, steps: Vec<Scripted>)
 
 /// one random sequence of 1..=60 commands
 pub fn run_random_sequence(out: &mut Out, rng: &mut Rng, prop: &str, gen: &dyn Fn(&mut Rng, u64) -> Command, boundary_pct: u64) {
+    run_random_sequence_len(out, rng, prop, gen, boundary_pct, None)
+}
+
+/// `len` = number of commands (default: 1..=60); long histories (thousands of commands on the same
+/// executor: keys change type, expire, are recreated many times) use an explicit length
+pub fn run_random_sequence_len(out: &mut Out, rng: &mut Rng, prop: &str, gen: &dyn Fn(&mut Rng, u64) -> Command, boundary_pct: u64, len_override: Option<u64>) {
     let start = BASE_MS + rng.below(5000);
-    let mut s = reset(out, start);
+    let cfg = gen_epoch(rng);
+    let mut s = reset_with_epoch(out, start, cfg);
+    out.count(&format!("config:simulation_start_epoch:{}", match cfg { EpochCfg::Zero => "default-0", EpochCfg::Secs(_) => "seconds-only", EpochCfg::Ms(_) => "ms-only", EpochCfg::Both(..) => "seconds+ms" }));
     let len = match rng.below(10) {
         0 => rng.range(1, 3),
         1..=5 => rng.range(4, 20),
         _ => rng.range(21, 60),
     };
+    let len = len_override.unwrap_or(len);
     let mut seq: Vec<String> = Vec::new();
-    let mut canon = String::new();
+    if cfg != EpochCfg::Zero {
+        seq.push(format!("config: {:?} (Unix time = virtual time + {} ms)", cfg, cfg.ms()));
+    }
+    let mut canon = format!("{:?}\n", cfg);
     let mut changed = 0u32;
     let mut informative = 0u32;
     let lazy_session = rng.chance(1, 4); // a session that mostly moves the clock without eviction
     for _ in 0..len {
         let t = next_time(rng, &mut s);
         let evict = if lazy_session { rng.chance(1, 5) } else { !rng.chance(1, 8) };
+        s.evict_direct = evict && rng.chance(1, 4);
         if t != s.now {
-            out.count(if evict { "clock:set_time" } else { "clock:update_time_readonly" });
+            out.count(if evict { if s.evict_direct { "clock:evict_expired_direct" } else { "clock:set_time" } } else { "clock:update_time_readonly" });
+        }
+        if evict && s.evict_direct {
+            out.count("entry:evict_expired_direct");
         }
         s.set_now(t, evict);
-        if rng.below(100) < boundary_pct {
+        // the boundary generator computes absolute times from the virtual clock: default epoch only
+        if cfg == EpochCfg::Zero && rng.below(100) < boundary_pct {
             // a boundary input computed from the current state (harness/src/boundary.rs)
             let mut cx = crate::boundary::Ctx { out, s: &mut s, seq: &mut seq, prop, canon: &mut canon, changed: &mut changed, informative: &mut informative };
             crate::boundary::random_boundary(&mut cx, rng);
             continue;
         }
-        let cmd = gen(rng, s.now);
-        seq.push(format!("t={}{} {:?}", t, if evict { "" } else { " (clock only)" }, cmd));
+        let mut cmd = gen(rng, s.unix());
+        // a straight-line script instead of a single command
+        if rng.chance(1, 16) {
+            let unix = s.unix();
+            if let Some(parts) = gen_script(rng, unix, gen) {
+                if let Some(ev) = script_of(&parts) {
+                    out.count(&format!("script:calls:{}", parts.len()));
+                    cmd = ev;
+                    s.script_parts = Some(parts);
+                }
+            }
+        }
+        // the other entry points that run a data command
+        s.via = match (&cmd, rng.below(8)) {
+            (Command::Get(_), 0..=2) => Via::Direct,
+            (Command::Set { ex: None, px: None, exat: None, pxat: None, nx: false, xx: false, get: false, keepttl: false, .. }, 0..=2) => Via::Direct,
+            (c, 3) if c.is_read_only() => Via::Read,
+            _ => Via::Execute,
+        };
+        seq.push(format!("t={}{} {:?}{}", t, if evict { "" } else { " (clock only)" }, cmd, match s.via { Via::Execute => "", Via::Direct => " [via get_direct/set_direct]", Via::Read => " [via execute_read]" }));
         let so = do_step(out, &mut s, &cmd, prop, &seq);
+        if seq.len() > 400 {
+            // a long history: the replay keeps the configuration line and the last commands
+            seq.drain(1..200);
+        }
         canon.push_str(&so.op);
         canon.push('\n');
         if so.before != so.after {
@@ -1203,7 +1699,62 @@ pub fn run_random_sequence(out: &mut Out, rng: &mut Rng, prop: &str, gen: &dyn F
             informative += 1;
         }
     }
-    out.count(&format!("seq-len:{}", if len <= 3 { "1-3" } else if len <= 20 { "4-20" } else { "21-60" }));
+    out.count(&format!("seq-len:{}", if len <= 3 { "1-3" } else if len <= 20 { "4-20" } else if len <= 60 { "21-60" } else { "long" }));
     out.case(&canon, changed >= 1 && informative >= 1);
     out.sample(json!({"sequence": seq}));
+}
+
+// ------------------------------------------------------------------------------------------
+// coverage self-audit (machine-readable copy of DESIGN.md §4 C01 / C17 "coverage audit")
+
+pub fn audit_c01() -> serde_json::Value {
+    json!([
+      {"class": 1, "topic": "entry paths / variants never driven",
+       "covered": "every Command variant: exhaustive match (a new variant breaks the harness build) + variant list scanned from command.rs by build.rs; pub fns of impl CommandExecutor scanned from executor/mod.rs and mapped to how they are driven (C01:coverage:executor-fn-not-driven:<fn>): get_direct / set_direct / execute_read / evict_expired_direct are driven inside the random sequences and compared with the model; pub fns of src/redis/data/*.rs scanned and mapped (C01:coverage:data-fn-not-driven:<file>::<fn>): the real RedisSortedSet / RedisList / SDS (and RedisSet / RedisHash against references) are driven directly; straight-line EVAL scripts (SCRIPT ops, Redis.stepScript); SETBIT / GETBIT / BatchSet / BatchGet / KEYS <glob> are now in the model (Model.RedisX)",
+       "open": "with_shared_script_cache / set_shared_script_cache (C16); SkipList::remove / get_by_rank / is_empty have no caller and the module is private: unreachable; INCRBYFLOAT (floats), SCAN family (cursor paging over hash order), OBJECT/DEBUG/CLIENT/CONFIG/ACL stubs stay oracle-only (C17 sweep)"},
+      {"class": 2, "topic": "input alphabet",
+       "covered": "binary / empty / numeric-looking payloads; values of 22 / 23 / 24 / 100 / 4096 bytes; binary set members, hash fields, zset members; glob patterns from fixed shapes and random strings over a b c k é * ? [ ] ^ - backslash",
+       "open": "keys are valid UTF-8 (Command carries String; non-UTF-8 keys are C03 / C04 / C16); the empty key is not generated (KEYS ** differs from Redis on it only)"},
+      {"class": 3, "topic": "comparisons at equality",
+       "covered": "93 boundary sites computed from the live state (boundary.rs) incl. the SDS inline limit; data-structure driver: every rank index in {isize::MIN, -n-1, -n, -n+1, -1, 0, 1, n-1, n, n+1, isize::MAX}, score bounds at / around existing scores, LIMIT offsets -1..k+1; SETBIT / GETBIT offsets around byte 22 / 23 and 2^32",
+       "open": "SETRANGE / SETBIT at 512 MB (allocation cost)"},
+      {"class": 4, "topic": "configuration",
+       "covered": "simulation_start_epoch / simulation_start_epoch_ms are generated input (default, 1 s, present-day, year 9999; seconds only, ms only, both with an ms value that is not a multiple of 1000): the model runs on Unix time = virtual + epoch; a scripted pass runs every absolute-time command (EXPIREAT, PEXPIREAT, EXPIRETIME, PEXPIRETIME, SET EXAT / PXAT, GETEX EXAT / PXAT, the EXPIRE range check) under each of the 7 configurations",
+       "open": "ServerConfig (CONFIG SET) is read by config_ops.rs only"},
+      {"class": 5, "topic": "capacity thresholds",
+       "covered": "SDS 23-byte inline limit (APPEND / SETRANGE / SET / SETBIT ending at 22 / 23 / 24 bytes; SDS driver); skip-list levels up to 8 in long runs",
+       "open": "SKIPLIST_MAXLEVEL = 32 needs about 4^31 inserts: covered by the theorems (any level <= 32) only"},
+      {"class": 6, "topic": "fault kinds", "covered": "every call into the real code under catch_unwind; overflow checks on in the harness build", "open": "no I/O in scope"},
+      {"class": 7, "topic": "history shapes",
+       "covered": "expired-but-unevicted keys (update_time_readonly), type changes on 5 colliding keys, emptied-then-refilled, long histories of 1500 commands on one executor; sorted sets (also held by a real CommandExecutor, ZADD with every flag): long runs, level shrink back to 1, free-slot reuse, repeated updates",
+       "open": "no persistence in scope"},
+      {"class": 8, "topic": "node-global state", "covered": "per-set rng_state compared after every step", "open": "math.randomseed(current_time) is C20; commands_processed feeds INFO only"},
+      {"class": 9, "topic": "observations",
+       "covered": "reply + keys / types / values / PTTL after every step; a sorted set's member map, skip list, length field and is_sorted() must describe the same set; the whole skip-list structure (heights, spans, header spans, level, length, rng_state) in the data driver",
+       "open": "expirations entries of invisible keys are not reachable through a public API"},
+      {"class": 10, "topic": "finding signatures",
+       "covered": "every C01 known finding is identified by cause: the model of the code as it is (Model.ExecutorCode CODE lines; the specification on the lossy form of binary names) answers first and must predict the very reply and keyspace (must_agree), else <signature>:outcome-differs-from-model; the GETSET rule no longer accepts missing-in-impl; the glob rule only covers patterns with [ or backslash",
+       "open": ""},
+      {"class": 11, "topic": "harness fragility",
+       "covered": "sources are read from the tree named in harness/Cargo.toml; a scan that finds too little panics the build; an unparsable Debug rendering is a violation + exit 3; a driven entry point / data fn with 0 calls is exit 3",
+       "open": ""}
+    ])
+}
+
+pub fn audit_c17() -> serde_json::Value {
+    json!([
+      {"class": 1, "topic": "entry paths / variants never driven",
+       "covered": "the sweep executes every Command variant (exhaustive-match table and the list scanned from command.rs: C17:coverage:variant-not-driven:<V>), now incl. EVAL / EVALSHA; execute_readonly for every command classified read-only; the read-only classification three ways (list in the source of is_read_only, the binary's answer per instance, the model's isReadOnly / isReadOnlyX): C17:source:read-only-list-differs-from-classification, read-only-depends-on-fields, read-only-classification-not-a-plain-variant-list; the whole table goes through the model as op lines on every run; straight-line scripts in the model with their own theorems",
+       "open": "scripts other than straight-line redis.call sequences (C16 / C02)"},
+      {"class": 2, "topic": "input alphabet", "covered": "shared with C01 plus failure-biased operands", "open": ""},
+      {"class": 3, "topic": "comparisons at equality", "covered": "snapshots compared now and at d-1 / d / d+1 for every pre-existing deadline d", "open": ""},
+      {"class": 4, "topic": "configuration", "covered": "simulation_start_epoch(_ms) generated in the random sequences", "open": "sweep fixtures use the default epoch"},
+      {"class": 5, "topic": "capacity thresholds", "covered": "SDS limit through the shared payloads", "open": "OBJECT ENCODING thresholds only change a constant reply"},
+      {"class": 6, "topic": "fault kinds", "covered": "a panic in execute or in execute_readonly is a violation (the latter used to be dropped by .ok())", "open": ""},
+      {"class": 7, "topic": "history shapes", "covered": "four fixtures (every type with and without a deadline; every key and a missing key as source and destination) + random prefixes with lazy expiry", "open": ""},
+      {"class": 8, "topic": "node-global state", "covered": "transaction / script-cache commands run on a fresh twin each", "open": "not part of the visible keyspace"},
+      {"class": 9, "topic": "observations", "covered": "full snapshot of twin executors; zset member map vs skip list", "open": ""},
+      {"class": 10, "topic": "finding signatures", "covered": "C17:error-mutates:<CMD>:<error class> per command; the one listed finding (scripts) is tied to its cause by must_agree", "open": ""},
+      {"class": 11, "topic": "harness fragility", "covered": "a prepared prefix that replays to a different keyspace is C17:harness:twin-diverged (was counted and skipped); a variant classified as executed with 0 instances is exit 3", "open": ""}
+    ])
 }
